@@ -12,6 +12,7 @@
 #include <cstdio>
 #include <cstring>
 #include <dlfcn.h>
+#include <functional>
 #include <map>
 #include <string>
 #include <sys/uio.h>
@@ -41,8 +42,9 @@ struct FS {
     bool frozen = false; std::string crash_phase;
     std::map<std::string, Bytes> image;      // frozen durable image
     std::string crash_event_kind, crash_event_path; size_t crash_event_bytes = 0, crash_torn_at = 0;
+    std::function<void(const std::string &, bool)> on_close; // (path, was open for writing), called when a descriptor is closed
 
-    void reset() { files.clear(); fds.clear(); open_errno.clear(); p_short_read = p_short_write = p_eintr = 0; event_count = 0; crash_at = -1; frozen = false; image.clear(); events.clear(); trace = sim::Hash(); crash_event_kind.clear(); }
+    void reset() { on_close = nullptr; files.clear(); fds.clear(); open_errno.clear(); p_short_read = p_short_write = p_eintr = 0; event_count = 0; crash_at = -1; frozen = false; image.clear(); events.clear(); trace = sim::Hash(); crash_event_kind.clear(); }
     void inc(const char *k) { if (st) st->inc(k); }
     // returns true if this event is the crash point (caller applies the torn part to the image)
     bool tick(const char *kind, const std::string &path, size_t bytes) {
@@ -98,7 +100,7 @@ int fclose(FILE *fp) {
     typedef int (*fclose_t)(FILE *);
     static fclose_t r = (fclose_t)dlsym(RTLD_NEXT, "fclose");
     simfs::FS &F = simfs::fs();
-    if (fp) { auto it = F.fds.find(fileno(fp)); if (it != F.fds.end()) { F.tick("close", it->second.path, 0); F.fds.erase(it); } }
+    if (fp) { auto it = F.fds.find(fileno(fp)); if (it != F.fds.end()) { F.tick("close", it->second.path, 0); if (F.on_close) F.on_close(it->second.path, it->second.wr); F.fds.erase(it); } }
     return r(fp);
 }
 
